@@ -1,2 +1,225 @@
-(* C13 -- statements only. *)
-From UP Require Import Base.Chars Model.Uri.
+(* C13 -- all memory goes through the supplied manager and is fully returned.
+   Statements only; proofs in Proofs/LedgerProofs.v, LedgerOps.v, LedgerBase.v, LedgerNormalize.v, LedgerTheorems.v,
+   LedgerSane.v, LedgerHistory.v.
+
+   The theorems are about the memory tier of the model (Model/Mem.v, Model/ParseM.v, Model/OpsM.v), which
+   mirrors the C code allocation by allocation (gen/c13.py, gen/c14.py compare full allocation traces).
+   They hold for every input object / text, every ledger state [s] that is well formed ([wf]: live block
+   ids pairwise distinct and below the next id), every fault plan (NoFault, FailOnce k, FailFrom k, any k:
+   no hypothesis is made on [ms_plan s]) and unbounded sizes.
+
+   Vocabulary: [live_ids s] the ids of the live blocks; [muri_blocks m] every block the object refers to;
+   [owns m s]: the object is consistent with its owner flag (a text has a block of its own iff the object
+   owns its texts and the text is not empty; nodes and address blocks always) and its blocks are pairwise
+   distinct and live in s; [bad_frees s]: number of releases so far that hit a block that was not live
+   (never handed out, or already released), i.e. "released through the same manager with exactly the
+   pointer it returned" fails exactly when this counter moves.
+
+   Covered operations: uriParseSingleUriExMm, uriFreeUriMembersMm, uriMakeOwnerMm, uriNormalizeSyntaxExMm
+   (any mask, borrowed and owned), uriAddBaseUriExMm, uriRemoveBaseUriMm.
+   NOT covered here (nothing is claimed about them):
+   - uriDissectQueryMallocExMm, uriComposeQueryMallocExMm, uriFreeQueryListMm (no memory-tier model);
+   - "an incomplete manager is rejected with the dedicated error code before anything is allocated": the C
+     wrappers test the manager (URI_CHECK_MEMORY_MANAGER) before they call the engines modelled here, so the
+     clause is outside these models; it is checked on the implementation by gen/c13.py only;
+   - "nothing bypasses the manager" (no direct malloc/free): the model has one ledger by construction; this
+     is observed on the implementation (libc interposition), not proved. *)
+From Coq Require Import List NArith Permutation.
+From UP Require Import Base.Chars Model.Uri Model.Mem Model.ParseM Model.OpsM
+  Proofs.LedgerProofs Proofs.LedgerOps Proofs.LedgerBase Proofs.LedgerNormalize Proofs.LedgerTheorems
+  Proofs.LedgerTransparent Proofs.LedgerSane Proofs.LedgerHistory.
+Import ListNotations.
+
+(* ---- the release call *)
+(* uriFreeUriMembersMm releases exactly the blocks of the object, each one live (no bad release), makes no
+   request, and leaves an object without blocks *)
+Theorem C13_free_members_releases_exactly : forall m s m' s', wf s -> owns m s -> free_members m s = (m', s') ->
+  wf s' /\ Permutation (live_ids s) (muri_blocks m ++ live_ids s') /\ bad_frees s' = bad_frees s
+  /\ ms_requests s' = ms_requests s /\ ms_plan s' = ms_plan s /\ muri_blocks m' = [] /\ owns m' s' /\ m_owner m' = m_owner m.
+Proof. exact free_members_releases. Qed.
+Print Assumptions C13_free_members_releases_exactly.
+
+(* freeing the members again changes nothing: neither the object nor the ledger nor the trace *)
+Theorem C13_free_members_idempotent : forall m s m' s', wf s -> owns m s -> free_members m s = (m', s') ->
+  free_members m' s' = (m', s').
+Proof. exact free_members_idempotent. Qed.
+Print Assumptions C13_free_members_idempotent.
+
+(* ---- every operation keeps the ledger balanced *)
+(* parse: on success the ledger grew by exactly the blocks of the (borrowed) object, which owns them; on a
+   syntax error or out-of-memory the live blocks are those from before the call (no residue) *)
+Theorem C13_parse_balanced : forall t s0, wf s0 ->
+  match parse_m t s0 with
+  | (MOk m, s') => wf s' /\ ext s0 s' /\ owns m s' /\ m_owner m = false
+                   /\ Permutation (live_ids s') (muri_blocks m ++ live_ids s0)
+  | (MSyntax _, s') => wf s' /\ ext s0 s' /\ Permutation (live_ids s') (live_ids s0)
+  | (MMalloc, s') => wf s' /\ ext s0 s' /\ Permutation (live_ids s') (live_ids s0) /\ fails_between s0 s'
+  end.
+Proof. exact parse_m_no_residue. Qed.
+Print Assumptions C13_parse_balanced.
+
+(* [ext s0 s'] contains: no bad release, the plan is unchanged, counters only grow *)
+Theorem C13_ext_meaning : forall s s', ext s s' ->
+  bad_frees s' = bad_frees s /\ ms_plan s' = ms_plan s /\ ms_requests s <= ms_requests s' /\ ms_next s <= ms_next s'.
+Proof. exact ext_meaning. Qed.
+Print Assumptions C13_ext_meaning.
+
+(* parse then release: the ledger is back to what it was *)
+Theorem C13_parse_release : forall t s0 m s1 m' s2, wf s0 -> parse_m t s0 = (MOk m, s1) -> free_members m s1 = (m', s2) ->
+  wf s2 /\ bad_frees s2 = bad_frees s0 /\ Permutation (live_ids s2) (live_ids s0) /\ muri_blocks m' = []
+  /\ free_members m' s2 = (m', s2).
+Proof. exact parse_m_cleanup. Qed.
+Print Assumptions C13_parse_release.
+
+(* parsed objects have a non-empty scheme and a non-empty IPvFuture text when these are present (needed below) *)
+Theorem C13_parsed_sane : forall t s m s', parse_m t s = (MOk m, s') -> sane m.
+Proof. exact parse_m_sane. Qed.
+Print Assumptions C13_parsed_sane.
+
+(* in-place operations: what the object held before plus what the ledger holds now = what the object holds
+   now plus what the ledger held before; the result owns its blocks; no bad release *)
+Theorem C13_make_owner_balanced : forall csize m s, wf s -> owns m s ->
+  match make_owner_m csize m s with
+  | (rc, m', s') =>
+    wf s' /\ bad_frees s' = bad_frees s /\ owns m' s'
+    /\ Permutation (live_ids s' ++ muri_blocks m) (muri_blocks m' ++ live_ids s)
+    /\ ((rc = URI_SUCCESS /\ m_owner m' = true) \/ (rc = URI_ERROR_MALLOC /\ m_owner m' = false /\ fails_between s s'))
+  end.
+Proof. exact make_owner_m_balanced. Qed.
+Print Assumptions C13_make_owner_balanced.
+
+(* hypothesis [sane]: only for a borrowed object, and only hand-built objects can violate it (C13_parsed_sane);
+   it cannot be dropped: C14_normalize_insane_refuted *)
+Theorem C13_normalize_balanced : forall csize mask m s, wf s -> owns m s -> (m_owner m = false -> sane m) ->
+  match normalize_m csize mask m s with
+  | (rc, m', s') =>
+    wf s' /\ bad_frees s' = bad_frees s /\ owns m' s'
+    /\ Permutation (live_ids s' ++ muri_blocks m) (muri_blocks m' ++ live_ids s)
+    /\ ((rc = URI_SUCCESS /\ (mask <> 0%N -> m_owner m' = true) /\ (mask = 0%N -> m' = m /\ s' = s))
+        \/ (rc = URI_ERROR_MALLOC /\ m_owner m' = m_owner m /\ fails_between s s'))
+  end.
+Proof. exact normalize_m_balanced. Qed.
+Print Assumptions C13_normalize_balanced.
+
+(* operations with a destination: the ledger grew by exactly the blocks of the destination, which owns them;
+   on any error the wrapper has released them already (and a further release is a no-op).  No hypothesis on
+   the arguments: they are read, never released *)
+Theorem C13_add_base_balanced : forall compat rel base s, wf s ->
+  match add_base_m compat rel base s with
+  | (rc, d, s') =>
+    wf s' /\ bad_frees s' = bad_frees s /\ owns d s' /\ m_owner d = false
+    /\ Permutation (live_ids s') (muri_blocks d ++ live_ids s)
+    /\ (rc = URI_SUCCESS \/ rc = URI_ERROR_ADDBASE_REL_BASE \/ (rc = URI_ERROR_MALLOC /\ fails_between s s'))
+    /\ (rc <> URI_SUCCESS -> muri_blocks d = [] /\ free_members d s' = (d, s'))
+  end.
+Proof. exact add_base_m_balanced. Qed.
+Print Assumptions C13_add_base_balanced.
+
+Theorem C13_remove_base_balanced : forall domain_root src base s, wf s ->
+  match remove_base_m domain_root src base s with
+  | (rc, d, s') =>
+    wf s' /\ bad_frees s' = bad_frees s /\ owns d s' /\ m_owner d = false
+    /\ Permutation (live_ids s') (muri_blocks d ++ live_ids s)
+    /\ (rc = URI_SUCCESS \/ rc = URI_ERROR_REMOVEBASE_REL_BASE \/ rc = URI_ERROR_REMOVEBASE_REL_SOURCE
+        \/ (rc = URI_ERROR_MALLOC /\ fails_between s s'))
+    /\ (rc <> URI_SUCCESS -> muri_blocks d = [] /\ free_members d s' = (d, s'))
+  end.
+Proof. exact remove_base_m_balanced. Qed.
+Print Assumptions C13_remove_base_balanced.
+
+(* ---- [sane] is kept by every operation, so the theorems above chain over any history *)
+Theorem C13_sane_is_kept : forall csize,
+  (forall mask m s, sane m -> sane (snd (fst (normalize_m csize mask m s))))
+  /\ (forall m s, sane m -> sane (snd (fst (make_owner_m csize m s))))
+  /\ (forall compat rel base s, sane rel -> sane base -> sane (snd (fst (add_base_m compat rel base s))))
+  /\ (forall dr src base s, sane src -> sane base -> sane (snd (fst (remove_base_m dr src base s))))
+  /\ (forall m s, sane m -> sane (fst (free_members m s))).
+Proof.
+  exact (fun csize => conj (normalize_m_sane csize) (conj (make_owner_m_sane csize)
+           (conj add_base_m_sane (conj remove_base_m_sane free_members_sane)))).
+Qed.
+Print Assumptions C13_sane_is_kept.
+
+(* ---- arbitrary histories.  A store of objects and a ledger; [hstep] (Proofs/LedgerHistory.v) applies one of:
+   parse a text (a new object when it parses), normalize / make owner / free members on object i in place,
+   add base / remove base of objects i, j (a new object, whatever the call returns); steps naming an object that
+   does not exist do nothing.  From the empty store and the empty ledger, under ANY fault plan and for ANY list of
+   steps: the live blocks are exactly the blocks of the objects of the store ([balanced]: also every object is
+   consistent with its owner flag), and no release ever hit a block that was not live.
+   [_partial]: the operations are the six covered ones; the query-list functions are not among them. *)
+Theorem C13_any_history_balanced_partial : forall csize p ops,
+  let st := hrun csize ops ([], ms_init p) in balanced (fst st) (snd st) /\ bad_frees (snd st) = 0.
+Proof. exact history_balanced. Qed.
+Print Assumptions C13_any_history_balanced_partial.
+
+Theorem C13_balanced_meaning : forall objs s, balanced objs s <->
+  (wf s /\ Forall (fun m => consistent m /\ sane m) objs /\ Permutation (live_ids s) (flat_map muri_blocks objs)).
+Proof. exact balanced_meaning. Qed.
+Print Assumptions C13_balanced_meaning.
+
+(* ... and once every object of the store has been released (free members on each), nothing is outstanding *)
+Theorem C13_any_history_then_release_leaves_nothing_partial : forall csize p ops,
+  let st := hrun csize ops ([], ms_init p) in
+  let st' := hrun csize (free_all (length (fst st))) st in
+  ms_live (snd st') = [] /\ bad_frees (snd st') = 0.
+Proof. exact history_then_release_leaves_nothing. Qed.
+Print Assumptions C13_any_history_then_release_leaves_nothing_partial.
+
+(* ---- three concrete shapes of histories, spelled out (instances of the above) *)
+Theorem C13_history_parse_normalize_free_partial : forall csize p t mask,
+  match parse_m t (ms_init p) with
+  | (MOk m, s1) =>
+    let '(rc, m', s2) := normalize_m csize mask m s1 in
+    let '(m'', s3) := free_members m' s2 in
+    ms_live s3 = [] /\ bad_frees s3 = 0 /\ free_members m'' s3 = (m'', s3)
+  | (_, s1) => ms_live s1 = [] /\ bad_frees s1 = 0
+  end.
+Proof. exact history_parse_normalize_free. Qed.
+Print Assumptions C13_history_parse_normalize_free_partial.
+
+Theorem C13_history_parse_make_owner_free_partial : forall csize p t,
+  match parse_m t (ms_init p) with
+  | (MOk m, s1) =>
+    let '(rc, m', s2) := make_owner_m csize m s1 in
+    let '(m'', s3) := free_members m' s2 in
+    ms_live s3 = [] /\ bad_frees s3 = 0 /\ free_members m'' s3 = (m'', s3)
+  | (_, s1) => ms_live s1 = [] /\ bad_frees s1 = 0
+  end.
+Proof. exact history_parse_make_owner_free. Qed.
+Print Assumptions C13_history_parse_make_owner_free_partial.
+
+Theorem C13_history_parse_add_base_free_partial : forall p compat tr tb,
+  match parse_m tr (ms_init p) with
+  | (MOk rel, s1) =>
+    match parse_m tb s1 with
+    | (MOk base, s2) =>
+      let '(rc, d, s3) := add_base_m compat rel base s2 in
+      let '(d', s4) := free_members d s3 in
+      let '(rel', s5) := free_members rel s4 in
+      let '(base', s6) := free_members base s5 in
+      ms_live s6 = [] /\ bad_frees s6 = 0
+    | (_, s2) => let '(rel', s3) := free_members rel s2 in ms_live s3 = [] /\ bad_frees s3 = 0
+    end
+  | (_, s1) => ms_live s1 = [] /\ bad_frees s1 = 0
+  end.
+Proof. exact history_parse_add_base_free. Qed.
+Print Assumptions C13_history_parse_add_base_free_partial.
+
+(* the hypotheses are satisfiable and the statements are not vacuous: "s://1.2.3.4/a/../b" parsed, normalized
+   with every bit, released; 6 requests, the 4th refused *)
+Example C13_nonvacuous :
+  let t := [115; 58; 47; 47; 49; 46; 50; 46; 51; 46; 52; 47; 97; 47; 46; 46; 47; 98]%N in
+  (exists m s1, parse_m t (ms_init NoFault) = (MOk m, s1) /\ length (ms_live s1) = 4 /\ owns m s1 /\ sane m
+     /\ exists m' s2, normalize_m 1 63 m s1 = (URI_SUCCESS, m', s2) /\ m_owner m' = true /\ length (muri_blocks m') = 5)
+  /\ (exists m s1, parse_m t (ms_init (FailOnce 6)) = (MOk m, s1)
+     /\ exists m' s2, normalize_m 1 63 m s1 = (URI_ERROR_MALLOC, m', s2) /\ m_owner m' = false /\ ms_requests s2 = 6).
+Proof.
+  cbv zeta. split.
+  - pose proof (parse_m_no_residue [115; 58; 47; 47; 49; 46; 50; 46; 51; 46; 52; 47; 97; 47; 46; 46; 47; 98]%N (ms_init NoFault) (wf_init _)) as H.
+    destruct (parse_m _ (ms_init NoFault)) as [[m|?|] s1] eqn:E; vm_compute in E; try discriminate.
+    exists m, s1. split; [reflexivity|]. split; [injection E as <- <-; reflexivity|]. split; [apply H|].
+    split; [injection E as <- <-; split; discriminate|].
+    injection E as <- <-. eexists; eexists. split; [vm_compute; reflexivity|]. split; reflexivity.
+  - eexists; eexists. split; [vm_compute; reflexivity|].
+    eexists; eexists. split; [vm_compute; reflexivity|]. split; reflexivity.
+Qed.
